@@ -201,6 +201,21 @@ fn c02_family<S: Sch>(t: Tier, seed: u64, out: &mut Vec<Entry>) {
     if name != "hyrax" {
         add("twin-1p1z-val", mk(vec![PolySpec::new(2)], 0), Mode::Single, Kind::Value(0), true);
     }
+    // check_combinations: claimed value of a combination with a constant term, queried at two points (C06's driver;
+    // IPA's challenges hash the perturbed data: decided through C10)
+    if name != "ipa" {
+        for q in [0usize, 1] {
+            let mut c = Cfg::new(std_size::<S>(t, 0), vec![PolySpec::new(2).conc(), PolySpec::new(2).conc()]);
+            c.seed = seed;
+            c.npoints = 2;
+            c.queries = vec![];
+            let shape = LcShape { lcs: vec![vec![T::P(0), T::P(1), T::One]], queries: vec![(0, 0), (0, 1)] };
+            let b = format!("{:?}; {:?}; claimed value of query {} perturbed", c.sz, shape, q);
+            let mut en = e(format!("{}/comb-2z-value@{}", name, q), t, sym, b, move || c06::run::<S>(&c, &shape, Pert::Value(q), false));
+            if quick { en.lim.wall_s = 45.0; }
+            out.push(en);
+        }
+    }
 }
 
 fn c04_family<S: Sch<P = UP>>(t: Tier, seed: u64, out: &mut Vec<Entry>)
@@ -457,6 +472,12 @@ fn catalogue_inner(prop: &str, t: Tier, seed: u64, out: &mut Vec<Entry>) {
             for nv in if t == Tier::Quick { vec![1usize, 2] } else { vec![1usize, 2, 3] } {
                 let mut en = e(format!("mlpst/nv{}", nv), t, "evaluations, point", format!("{} variables", nv), move || inherent::mlpst(nv, IPert::None, seed)); en.funcs = fi.clone(); out.push(en);
             }
+            // streaming KZG (the drivers are C14's: honest single / multi-point / multi-polynomial openings verify)
+            let fs = vec!["streaming_kzg::{CommitterKey,CommitterKeyStream}::{commit,open,open_multi_points,batch_open_multi_points}", "streaming_kzg::VerifierKey::{verify,verify_multi_points}"];
+            let mut en = e("streaming/single-n3".into(), t, "coefficients, point", "3 coefficients".into(), move || c14::single(3, 2, seed)); en.funcs = fs.clone(); if t == Tier::Quick { en.lim.wall_s = 45.0; } out.push(en);
+            for (n, m, k) in [(2usize, 2usize, 2usize), (3, 2, 3)] {
+                let mut en = e(format!("streaming/multi-n{}-pts{}-polys{}", n, m, k), t, "coefficients, points, batching challenge", format!("{} polynomials of mixed lengths from {} coefficients, {} points", k, n, m), move || c14::multi(n, m, k, 2, seed)); en.funcs = fs.clone(); if t == Tier::Quick { en.lim.wall_s = 45.0; } out.push(en);
+            }
         }
         "C02" => {
             c02_family::<Marlin>(t, seed, out);
@@ -581,6 +602,22 @@ fn catalogue_inner(prop: &str, t: Tier, seed: u64, out: &mut Vec<Entry>) {
             lin!(LigeroUni, 4);
             lin!(LigeroMl, 1);
             lin!(Brakedown, 1);
+            macro_rules! batchf {
+                ($S:ty) => {{
+                    let mut c = Cfg::new(std_size::<$S>(t, 0), vec![PolySpec::new(2).conc()]);
+                    c.seed = seed;
+                    c.npoints = 3;
+                    c.queries = vec![(0, 0), (0, 1), (0, 2)];
+                    c.sym_points = false;
+                    c.sym_ch = false;
+                    c.rng_nonzero = true;
+                    let c2 = c.clone();
+                    let mut en = e(format!("{}/batch-forged-1p3z", <$S as Sch>::NAME), t, "one error term per claimed value, the witness elements of proofs 2 and 3", format!("{:?}; one polynomial at 3 concrete points, 4 verifier tapes", c.sz), move || c03::batch_forged::<$S>(&c2, 4)); en.funcs = f.clone(); if quick { en.lim.wall_s = 45.0; } out.push(en);
+                }};
+            }
+            batchf!(Marlin);
+            batchf!(Sonic);
+            batchf!(Pst13);
             for (id, drop) in [("pst13/w-short", true), ("pst13/w-long", false)] {
                 let mut c = Cfg::new(Size::mv(2, 2, 0), vec![PolySpec::new(3)]);
                 c.seed = seed;
